@@ -363,8 +363,25 @@ func genC08(env *core.Env, emit func(core.Case)) {
 				ctx, cancel := context.WithTimeout(context.Background(), 40*time.Millisecond)
 				defer cancel()
 				t0 := time.Now()
-				_, err := ech.NewConn(ctx, sc, ech.WithKeys(echKeys(key)))
-				results[off] = sr{off, connh.ErrClass(err), time.Since(t0)}
+				// under a watchdog: a NewConn that does not come back at all is closed from outside after 3 s
+				// (and reported through its elapsed time); if even that does not end it, it is given up
+				done := make(chan error, 1)
+				go func() {
+					_, err := ech.NewConn(ctx, sc, ech.WithKeys(echKeys(key)))
+					done <- err
+				}()
+				select {
+				case err := <-done:
+					results[off] = sr{off, connh.ErrClass(err), time.Since(t0)}
+				case <-time.After(3 * time.Second):
+					sc.Close()
+					select {
+					case err := <-done:
+						results[off] = sr{off, connh.ErrClass(err), time.Since(t0)}
+					case <-time.After(2 * time.Second):
+						results[off] = sr{off, "never-returned", time.Since(t0)}
+					}
+				}
 			}(off)
 		}
 		wg.Wait()
